@@ -93,6 +93,11 @@ class DataCase(object):
             # mapped explicitly
             self.obs_names = [11 + o for o in range(self.n_out)]
             self.observable_codes = True
+        # (two outputs may be compared with the same observable of the
+        # dataset: two descriptions of one biomarker)
+        self.shared_observable = self.n_out == 2 and rng.random() < 0.15
+        if self.shared_observable:
+            self.obs_names = [self.obs_names[0]] * 2
         self.map_explicit = self.obs_names != self.outputs or \
             rng.random() < 0.3
         self.map_reversed = bool(rng.integers(2))
@@ -116,10 +121,14 @@ class DataCase(object):
                                   else rng.uniform(0.5, 3.0))
                     self.replicates = True
                 self.meas[k].append((t, v))
+        if self.shared_observable:
+            for k in self.keys:
+                self.meas[k][1] = self.meas[k][0]
         # an individual may lack every measurement of one observable (only
         # the first biomarker was not assayed for that patient)
         self.lacks_output = None
-        if self.n_out >= 2 and self.n_ids >= 2 and rng.random() < 0.3:
+        if self.n_out >= 2 and self.n_ids >= 2 and rng.random() < 0.3 \
+                and not self.shared_observable:
             k = self.keys[int(rng.integers(self.n_ids))]
             o = 0 if rng.random() < 0.7 else int(rng.integers(self.n_out))
             self.meas[k][o] = (np.array([]), np.array([]))
@@ -227,6 +236,8 @@ class DataCase(object):
                                     kn['obs']: cname,
                                     kn['value']: float(val)}])
             for o in range(self.n_out):
+                if o == 1 and getattr(self, 'shared_observable', False):
+                    continue        # (the rows of the shared observable)
                 t, v = self.meas[k][o]
                 blocks.append([{kn['id']: lab(i), kn['time']: float(tt),
                                 kn['obs']: self.obs_names[o],
